@@ -35,3 +35,22 @@ func runeControl() int {
 	}
 	return len(runeIterations(spkg.Func("f")))
 }
+
+const alignControlSrc = `package ctl
+func g(pos, blockSize uint64) bool { return blockSize > 0 && pos%blockSize != 0 && pos%8 == 0 }
+`
+
+// alignControl: number of alignment tests found in the control function (1 expected).
+func alignControl() int {
+	fset := token.NewFileSet()
+	file, err := parser.ParseFile(fset, "ctl2.go", alignControlSrc, 0)
+	if err != nil {
+		return -1
+	}
+	pkg := types.NewPackage("ctl2", "ctl")
+	spkg, _, err := ssautil.BuildPackage(&types.Config{}, fset, pkg, []*ast.File{file}, ssa.SanityCheckFunctions)
+	if err != nil {
+		return -1
+	}
+	return len(alignTests(spkg.Func("g")))
+}
